@@ -907,6 +907,19 @@ def assemble_unit(unit_dir, repo=None, canary=False):
         if norm(et["contains"]) not in norm(txt):
             raise Undecided("model out of date: %s no longer contains `%s` (%s)" % (et["file"], et["contains"], et.get("why", "")))
         tlog.append({"t": "T6", "item": et["file"], "note": "macro input checked verbatim: " + et["contains"][:60]})
+    for sb in unit.get("same_block", []):
+        # an assumed contract that is proved in another unit: the clause text between `<<abstract:NAME` and `>>abstract` must be the same
+        def blocks(path_):
+            txt_ = open(os.path.join(VERIF, path_)).read()
+            out_ = {}
+            for m_ in re.finditer(r"<<abstract:(\w+)[^\n]*\n(.*?)//\s*>>abstract", txt_, re.S):
+                out_[m_.group(1)] = re.sub(r"\s+", " ", m_.group(2)).strip().rstrip(",")
+            return out_
+        ba, bb = blocks(sb["a"]), blocks(sb["b"])
+        for nm in sb["names"]:
+            if nm not in ba or nm not in bb or ba[nm] != bb[nm]:
+                raise Undecided("assumed contract out of sync: block `%s` of %s and %s differ" % (nm, sb["a"], sb["b"]))
+        tlog.append({"t": "T7", "item": sb["a"], "note": "assumed contract blocks %s are textually those proved in %s" % (sb["names"], sb["b"])})
     used_items = set()
     canary_fns = []
     body = []
